@@ -246,4 +246,19 @@ def pdLookup (maps : List SFile) (maxPfn pfn : Nat) : Option (Nat × Nat) :=
         | none => none
       else none
 
+/-- where `diskdump_read_page` takes the content of a frame from -/
+inductive PageSrc
+  | nodata                       -- out of bounds, or excluded while `file.zero_excluded` is off
+  | zero                         -- excluded frame delivered as a page of zeroes (`file.zero_excluded` on)
+  | desc (fidx pos : Nat)        -- the page descriptor at `pos` of file `fidx`
+  deriving Repr, DecidableEq, Inhabited
+
+/-- `diskdump_read_page` up to the descriptor read, with the `file.zero_excluded` option.  A frame for which
+`find_pfn_file_map` finds no file at all (behind the last window of the set) is an excluded frame like any other. -/
+def readPageSrc (maps : List SFile) (maxPfn : Nat) (zeroExcl : Bool) (pfn : Nat) : PageSrc :=
+  if pfn ≥ maxPfn then .nodata
+  else match pdLookup maps maxPfn pfn with
+    | some (fi, pos) => .desc fi pos
+    | none => if zeroExcl then .zero else .nodata
+
 end Kdf.Model.Flat
